@@ -40,7 +40,7 @@ ValTol(m, x) == LET ax == BRAbs(x) IN
     BRMul(KU, BRAdd(BRAdd(BRAdd(m[1], BRMul(m[2], ax)), BRMul(m[3], Sq(ax))), BRMul(m[4], Cube(ax))))
 SlopeTol(m, x) == LET ax == BRAbs(x) IN
     BRMul(KU, BRAdd(BRAdd(m[2], BRMul(BRMul(BR(2), m[3]), ax)), BRMul(BRMul(BR(3), m[4]), Sq(ax))))
-Within(a, b, tol) == BRLe(BRAbs(BRSub(a, b)), tol)
+Within(a, b, tol) == LeTracked(BRAbs(BRSub(a, b)), tol)
 
 SplineOK(e) ==
     LET ks == Knots(e)  n == Len(ks)
